@@ -3,6 +3,7 @@ package e1
 import (
 	"encoding/json"
 	"fmt"
+	"time"
 
 	"verifsim/core"
 )
@@ -52,8 +53,27 @@ func genC03(r *core.Rand, env *core.Env, run int) *Scenario {
 			cut := 3 + r.Intn(len(g.steps)-4)
 			g.steps = append(append(append([]Step{}, g.steps[:cut]...), Step{Kind: "close", Tag: "abrupt"}), g.steps[cut:]...)
 		}
-		sc.Clients = append(sc.Clients, ClientProg{Name: fmt.Sprintf("c%d", ci), Role: "owner", Steps: g.steps,
-			Pipeline: pick(r, []int{1, 2, 5, 10, 50}), Chunked: r.Bool(0.5), WriteYield: r.Bool(0.5)})
+		cp := ClientProg{Name: fmt.Sprintf("c%d", ci), Role: "owner", Steps: g.steps,
+			Pipeline: pick(r, []int{1, 2, 5, 10, 50}), Chunked: r.Bool(0.5), WriteYield: r.Bool(0.5)}
+		if r.Bool(0.15) && len(g.steps) > 8 {
+			// a slow reader: the client stops reading while it keeps a pipelined batch
+			// outstanding, its (small) socket buffer fills, seconds pass, then it
+			// drains everything: still one complete reply per command, in order
+			cp.OutLimit = pick(r, []int{16, 64, 256, 1024})
+			at := 1 + r.Intn(len(g.steps)-6)
+			batch := 2 + r.Intn(4)
+			if cp.Pipeline < batch {
+				cp.Pipeline = batch
+			}
+			var st []Step
+			st = append(st, g.steps[:at]...)
+			st = append(st, Step{Kind: "stall"})
+			st = append(st, g.steps[at:at+batch]...)
+			st = append(st, Step{Kind: "sleep", Sleep: time.Duration(pick(r, []int{100, 1500, 2500, 5000, 61000})) * time.Millisecond}, Step{Kind: "unstall"})
+			st = append(st, g.steps[at+batch:]...)
+			cp.Steps = st
+		}
+		sc.Clients = append(sc.Clients, cp)
 	}
 	return sc
 }
